@@ -110,6 +110,9 @@ func cmdWorker(args []string) int {
 	budgetMult := fs.Int("budget-mult", 1, "CPU budget multiplier")
 	noMin := fs.Bool("no-minimise", false, "do not minimise violating inputs")
 	fs.Parse(args)
+	if os.Getenv("VERIF_NOMIN") != "" {
+		*noMin = true
+	}
 
 	m := core.Lookup(cf.property)
 	if m == nil {
